@@ -1,6 +1,9 @@
 (** Evaluator glue for C16: runs the ClientID model on what the harness ran
     the real code on. *)
+From Coq Require Import List.
 From AGH Require Import Base.Run Base.Bytes Base.Dom Base.PathClean Model.ClientID Model.CertNames.
+From AGH Require Import Model.ClientIDCache Model.ClientIDReconf Model.TLSSettings.
+Import ListNotations.
 Local Open Scope N_scope.
 
 (** Error classes as the harness can tell them apart without reading message
@@ -27,6 +30,35 @@ Definition proto_of (n : N) : proto :=
 
 Definition mk_req (q : bytes * option bytes * bytes) : doh_req :=
   {| d_path := fst (fst q); d_tls_sni := snd (fst q); d_host_hdr := snd q |}.
+
+(** One step of a history on a running server (round 4).  [HReq]: a request
+    over the network: the proxy creates its context and calls the hook, then
+    the handler.  Observed: the RequestID the handler saw ([None]: the handler
+    was not called), and 0 = processed, the query-log entry carrying [obs_id];
+    1 = handler called, returned before the query log; 2 = handler not called.
+    [HReconf]: Prepare with these TLS settings (Stop/Prepare/Start or
+    Reconfigure). *)
+Inductive hstep :=
+  | HReq (p : N) (sni : option bytes) (req : option (bytes * option bytes * bytes)) (early : bool)
+         (obs_rid : option N) (obs : N) (obs_id : bytes)
+  | HReconf (host : bytes) (strict : bool).
+
+Definition mk_t (enabled : bool) (name : bytes) (force : bool) (https dot doq dnscrypt file : N)
+    (allow : bool) (chain key cpath kpath : N) (ciphers : list N) (strict : bool) : tls_settings :=
+  {| t_enabled := enabled; t_server_name := name; t_force_https := force; t_port_https := https;
+     t_port_dot := dot; t_port_doq := doq; t_port_dnscrypt := dnscrypt; t_dnscrypt_file := file;
+     t_allow_unenc_doh := allow; t_cert_chain := chain; t_private_key := key; t_cert_path := cpath;
+     t_key_path := kpath; t_ciphers := ciphers; t_strict := strict |}.
+
+(** One POST /control/tls/configure: the decoded request, the two facts only
+    the system knows; observed: outcome (0 bad request, 1 load failed, 2 set,
+    3 set then 500), configModified called, the manager's settings and
+    servePlainDNS afterwards, and what newDNSTLSConfig made of them for the DNS
+    server ([dns_known = false]: it returned an error). *)
+Inductive tstep :=
+  | TConfigure (setts : tls_settings) (saved : bool) (serve : option bool) (avail pair_ok : bool)
+               (obs_out : N) (obs_changed : bool) (obs_conf : tls_settings) (obs_serve : bool)
+               (dns_known : bool) (obs_dns : option (bytes * bool)).
 
 Inductive case :=
   (* Server.clientIDFromDNSContext: protocol, configured name, strict, TLS/QUIC
@@ -55,13 +87,89 @@ Inductive case :=
      server name, v6 as above; observed: certificate handed out *)
   | CHello (strict : bool) (dns : list bytes) (cn : bytes) (sni : bytes) (v6 : bool) (obs : bool)
   (* the gate: netutil.IsValidHostname(s) || netutil.IsValidIPString(s) *)
-  | CGate (s : bytes) (v6 : bool) (obs : bool).
+  | CGate (s : bytes) (v6 : bool) (obs : bool)
+  (* a history of requests and reconfigurations on one running Server *)
+  | CHist (host : bytes) (strict : bool) (steps : list hstep)
+  (* a sequence of configure calls on one tlsManager: web and DNS port of the
+     configuration, servePlainDNS and the settings at the start *)
+  | CTls (web dns : N) (serve0 : bool) (conf0 : tls_settings) (steps : list tstep).
 
 Definition eqb_res (r : N * bytes) (c : N) (id : bytes) : bool :=
   (fst r =? c) && eqb_bytes (snd r) id.
 
 Definition valid_code (l : bytes) : N :=
   match validate_hostname_label l with None => 0 | Some e => 1 + label_code e end.
+
+Definition mk_q (p : N) (sni : option bytes) (req : option (bytes * option bytes * bytes)) (early : bool) : req_in :=
+  {| q_proto := proto_of p; q_sni := sni; q_http := option_map mk_req req; q_early := early |}.
+
+(** The model's observation of a request served at once: (RequestID, code, id). *)
+Definition hreq_model (st : srv) (q : req_in) : srv * (N * N * bytes) :=
+  let (st1, b) := arrive server_cache_conf st q in
+  let rid := s_counter st1 in
+  let (st2, b2) := process st1 (length (s_reqs st)) in
+  (st2, match b2 with
+        | BProcess id => (rid, 0, id)
+        | BEarly => (rid, 1, nil)
+        | _ => (rid, 2, nil)
+        end).
+
+Fixpoint hist_ok (st : srv) (steps : list hstep) : bool :=
+  match steps with
+  | nil => true
+  | HReq p sni req early obs_rid obs obs_id :: r =>
+      let (st', m) := hreq_model st (mk_q p sni req early) in
+      (match obs_rid with Some n => n =? fst (fst m) | None => true end)
+      && (snd (fst m) =? obs) && eqb_bytes (snd m) obs_id && hist_ok st' r
+  | HReconf host strict :: r =>
+      hist_ok (fst (reconf true st host strict)) r
+  end.
+
+Definition out_code (o : outcome) : N :=
+  match o with OutBadRequest => 0 | OutLoadFailed => 1 | OutSet => 2 | OutSetThenError => 3 end.
+
+Definition eqb_dns (a b : option (bytes * bool)) : bool :=
+  eqb_option (fun x y => eqb_bytes (fst x) (fst y) && Bool.eqb (snd x) (snd y)) a b.
+
+Fixpoint tls_ok (m : mgr) (steps : list tstep) : bool :=
+  match steps with
+  | nil => true
+  | TConfigure setts saved serve avail pair_ok o ch conf sp known dns :: r =>
+      let rq := {| r_setts := setts; r_key_saved := saved; r_serve_plain := serve;
+                   r_avail := avail; r_pair_ok := pair_ok |} in
+      let '(m', out, changed) := handle m rq in
+      (out_code out =? o) && Bool.eqb changed ch && eqb_settings (m_conf m') conf
+      && Bool.eqb (m_serve_plain m') sp
+      && (if known then eqb_dns (dns_tls (m_conf m')) dns else true)
+      && tls_ok m' r
+  end.
+
+(** For replay files: the first step (1-based) the model disagrees at, and
+    what the model computes there: 1000 * step + code (requests), 10 * step +
+    outcome (configure calls); 0 when it agrees everywhere. *)
+Fixpoint hist_first_bad (k : N) (st : srv) (steps : list hstep) : N * bytes :=
+  match steps with
+  | nil => (0, nil)
+  | HReq p sni req early obs_rid obs obs_id :: r =>
+      let (st', m) := hreq_model st (mk_q p sni req early) in
+      if (match obs_rid with Some n => n =? fst (fst m) | None => true end)
+         && (snd (fst m) =? obs) && eqb_bytes (snd m) obs_id
+      then hist_first_bad (k + 1) st' r
+      else (1000 * k + 100 * fst (fst m) + snd (fst m), snd m)
+  | HReconf host strict :: r => hist_first_bad (k + 1) (fst (reconf true st host strict)) r
+  end.
+
+Fixpoint tls_first_bad (k : N) (m : mgr) (steps : list tstep) : N * bytes :=
+  match steps with
+  | nil => (0, nil)
+  | TConfigure setts saved serve avail pair_ok o ch conf sp known dns :: r =>
+      let rq := {| r_setts := setts; r_key_saved := saved; r_serve_plain := serve;
+                   r_avail := avail; r_pair_ok := pair_ok |} in
+      let '(m', out, changed) := handle m rq in
+      if tls_ok m [TConfigure setts saved serve avail pair_ok o ch conf sp known dns]
+      then tls_first_bad (k + 1) m' r
+      else (10 * k + out_code out, t_server_name (m_conf m'))
+  end.
 
 Definition case_ok (c : case) : bool :=
   match c with
@@ -81,6 +189,9 @@ Definition case_ok (c : case) : bool :=
   | CHello strict dns cn sni v6 obs =>
       Bool.eqb (handshake_accepts strict {| c_dns_names := dns; c_common_name := cn |} sni v6) obs
   | CGate s v6 obs => Bool.eqb (sni_wellformed s v6) obs
+  | CHist host strict steps => hist_ok (srv_init host strict) steps
+  | CTls web dns serve0 conf0 steps =>
+      tls_ok {| m_conf := conf0; m_serve_plain := serve0; m_web_port := web; m_dns_port := dns |} steps
   end.
 
 Definition mismatches := Base.Run.mismatches case_ok.
@@ -105,4 +216,7 @@ Definition explain (c : case) : N * bytes :=
       ((if handshake_accepts strict {| c_dns_names := dns; c_common_name := cn |} sni v6 then 1 else 0),
        concat (map (fun n => n ++ [32]) (collect_names {| c_dns_names := dns; c_common_name := cn |})))
   | CGate s v6 _ => ((if sni_wellformed s v6 then 1 else 0), nil)
+  | CHist host strict steps => hist_first_bad 1 (srv_init host strict) steps
+  | CTls web dns serve0 conf0 steps =>
+      tls_first_bad 1 {| m_conf := conf0; m_serve_plain := serve0; m_web_port := web; m_dns_port := dns |} steps
   end.
